@@ -268,6 +268,23 @@ class PCT(Strategy):
         return best
 
 
+class HotLines(Strategy):
+    """window widening: pre-empt often at the source lines of a critical window, rarely elsewhere"""
+    name = "hot"
+
+    def __init__(self, st, hot_permille, cold_permille, lines):
+        Strategy.__init__(self, st)
+        self.hot = hot_permille
+        self.cold = cold_permille
+        self.lines = lines
+        self.name = "hot%d" % hot_permille
+
+    def preempt(self, sim, what):
+        if what in self.lines:
+            return self.st.flip(self.hot)
+        return self.st.flip(self.cold) if self.cold else False
+
+
 def make_strategy(st, spec):
     """spec: ('rtb',) | ('random', permille) | ('bounded', k, horizon) | ('pct', d, horizon)"""
     kind = spec[0]
@@ -279,6 +296,8 @@ def make_strategy(st, spec):
         return Bounded(st, spec[1], spec[2])
     if kind == "pct":
         return PCT(st, spec[1], spec[2])
+    if kind == "hot":
+        return HotLines(st, spec[1], spec[2], spec[3])
     raise ValueError(spec)
 
 
